@@ -503,10 +503,10 @@ func run(r *enumx.Run, replay *enumx.ReplayCase) {
 	}
 	lenBound := 60
 	walkSteps := 60
-	nilLenExtra, maxNil := 4, 2
+	nilLenExtra, maxNil := 8, 3
 	if r.Thorough() {
 		lenBound = 150
-		nilLenExtra, maxNil = 8, 3
+		nilLenExtra, maxNil = 12, 4
 	}
 	r.Rule(fmt.Sprintf("explicit-state BFS on the real ring.Buffered[int] against a plain slice queue for NewBuffered(initial 0..5, buffer 0..5); operations AppendBack(fresh non-nil pointer), AppendBack(nil) (a nil *T is an ordinary element of a queue of *T), RemoveFront (non-empty only), Front, Len, Range stopping after k = 1..len+1 elements. Search 1 (no nil elements): FIXPOINT of canonical states with queue length <= %d (>= the property's sequence length 60, so no sequence of <= 60 operations leaves the bounded region; the designed bound 3*bsize+4 is subsumed). Search 2 (both value kinds): FIXPOINT of canonical states with queue length <= 3*bsize+%d and AT MOST %d nil elements in the queue at any time (bounded to keep the 2^len nil patterns finite and small; AppendBack(nil) is simply not enabled in a state that already queues %d). Canonical key = reference queue (length, positions of nil elements) + the complete real state (capacity, end, bsize, every slot as free / occupied-by-nil-element / queue rank / stale — occupied is decided by position < end, not by the pointer —, next/prev consistency) read by an in-package accessor; successors by replaying the shortest history on a fresh object plus one operation. Front/RemoveFront returning nil for an empty queue versus for a nil element is told apart by Len, compared in the same state. Then every grow/shrink cycle (fill to P in 1..3*bsize+4, drain to Q in 0..P-1, repeat; %d mutating operations; all-fresh, and with every / every second append nil while fewer than %d are queued; plus the 0->60->0 sweep) on one long-lived object, every non-mutating operation after every step, and every walk state is looked up in the fixpoint set of its search. evaluations = operations executed on the real object and compared; distinct non-trivial = BFS transitions that are distinct (canonical state, operation) pairs (search 2 counts only pairs involving a nil element; the rest repeat search 1); walk transitions revisit those pairs on long-lived objects and are not counted as distinct.", lenBound, nilLenExtra, maxNil, maxNil, walkSteps, maxNil))
 	type cfg struct {
